@@ -19,7 +19,12 @@ NAMES = [b"cookie", b"authorization", b"x-a", b"x-b", b"connection", b"accept", 
 def gen_many(rng):
     n = rng.choice([0, 1, 2, 5, 20, 60])
     method = rng.choice(["GET", "POST", "PUT", "HEAD"])
-    orig = group_headers([(b"x-orig", b"o1"), (b"accept", b"orig-accept")])
+    orig_list = [(b"x-orig", b"o1"), (b"accept", b"orig-accept")]
+    if method in BODY_METHODS and rng.random() < 0.35:
+        # the request declares chunked framing itself; a Content-Length the caller adds on top is redundant (chunked wins) but is a header
+        # the caller added and reaches the wire like every other one
+        orig_list.append((b"transfer-encoding", b"chunked"))
+    orig = group_headers(orig_list)
     ops = ["new " + request_args(method, "1.1", "http", "a.test", "/m", orig)]
     added = []
     for i in range(n):
